@@ -37,6 +37,7 @@ structure DState where
   expectCom : Option String := none
   expectVer : Option String := none
   comTable : List (String × Int) := []
+  tickers : List (String × String) := []   -- ticker ↦ owner as it follows from the accepted transactions (RestartMonitor.ownerGate)
   nCommits : Nat := 0
   nOps : Nat := 0
   nModelled : Nat := 0
@@ -344,6 +345,13 @@ partial def loop (h : IO.FS.Stream) (out : IO.FS.Stream) (ds : DState) : IO Unit
         out.putStrLn s!"VIOL C01 volume-mismatch {fmtViol v}"
       if !amountsOk st then
         out.putStrLn s!"VIOL C02 negative-or-overflow"
+      if kind == "restart" then
+        -- the export re-read from disk by the restarted process against the export of the last commit (`ds.dump` before this delta)
+        for c in chs do
+          for v in restartViolations "export" c.key c.old c.new do
+            out.putStrLn v
+      if kind == "init" then
+        ds := { ds with tickers := tickersOfDump d }
       if kind == "commit" then
         match ds.committed with
         | some prev =>
@@ -380,6 +388,8 @@ partial def loop (h : IO.FS.Stream) (out : IO.FS.Stream) (ds : DState) : IO Unit
         if setChanged || ds.begin.height % ds.params.period == 0 then
           for v in validatorSetModel new do
             out.putStrLn v
+        for v in pruneMonitor old new (ds.begin.height % ds.params.period == 0) do
+          out.putStrLn v
       | none => pure ()
     else if kind == "begin" then
       match before with
@@ -433,6 +443,14 @@ partial def loop (h : IO.FS.Stream) (out : IO.FS.Stream) (ds : DState) : IO Unit
             else if earlier.any (fun e => e.2.2) then
               out.putStrLn s!"VIOL C26 failed-tx-charged-again type={lt.t.typ} code={lt.code} first-code={(earlier.filter (fun e => e.2.2)).getLast?.map (·.2.1) |>.getD 0} deliveries={earlier.length + 1} sender={toHexPad lt.t.sender 40} nonce={lt.t.nonce} fail_fee={kvGet lt.kvs "tx.fail_fee"}"
           ds := { ds with seenRaw := (raw, lt.code, charged) :: ds.seenRaw }
+        if lt.code == 0 then
+          let ty := lt.t.typ
+          let coinLine := words ((dumpBefore.get? s!"c {lt.t.nat "d.Coin"}").getD "")
+          let sym := if ty == 28 then coinLine.headD "" else lt.t.str "d.Symbol"
+          let (vs, tk) := ownerGate ds.tickers ty (toHexPad lt.t.sender 40) sym (if ty == 28 then coinLine.getD 1 "0" else "0") (lt.t.str "d.NewOwner")
+          for v in vs do
+            out.putStrLn v
+          ds := { ds with tickers := tk }
         if lt.t.typ == 8 || lt.t.typ == 10 || lt.t.typ == 27 || lt.t.typ == 38 then
           for v in stakingTxMonitor ds.params (State.ofDump dumpBefore) (State.ofDump d) lt.t lt.code ds.block do
             out.putStrLn v
@@ -464,6 +482,15 @@ partial def loop (h : IO.FS.Stream) (out : IO.FS.Stream) (ds : DState) : IO Unit
     out.flush
     let breq : BeginReq := { height := natD (kvGet a "h"), votes := votes, byz := byz }
     loop h out { ds with block := natD (kvGet a "h"), nOps := ds.nOps + 1, begin := bi, breq := breq }
+  | "X" :: "restart-live" :: key :: rest =>
+    -- what the stopped process held in memory against what the restarted one holds (harness/restartlive.go)
+    let a := kv (" ".intercalate rest)
+    let val := fun k => let v := kvGet a k; if v == "absent" || v == "" then none else some (v.replace "_" " ")
+    for v in restartViolations "live" (key.replace "_" " ") (val "before") (val "after") do
+      out.putStrLn v
+    out.putStrLn "."
+    out.flush
+    loop h out ds
   | "X" :: "divergence" :: rest =>
     out.putStrLn ("VIOL C09 cache-vs-disk " ++ " ".intercalate rest)
     out.putStrLn "."
